@@ -19,7 +19,7 @@ from .. import simdisk
 from .base import BaseWorld, lib
 
 LENGTHS = [2, 3, 4, 5, 8, 9, 16, 17, 24, 31, 32, 50, 64, 100]
-NSPEC = ['N', 'N', 'N', 'N', 'N', 'N-1', 'N+1', 'N//2', '2N', '1', '2', '0', 'N-2']
+NSPEC = ['N'] * 11 + ['N-1', 'N+1', 'N//2', '2N', '1', '2', '0', 'N-2']
 FMTS = ['%.18e', '%.18e', '%.17g', '%.10e', '%.6e', '%.4e', '%r']
 NAMES = ['a.dat', 'b.dat']
 RTOL, ATOL = 1e-5, 1e-8
@@ -31,9 +31,9 @@ def resolve_n(spec, N):
 
 def gen_kgrid(rng):
     r = rng.random()
-    if r < 0.45:
+    if r < 0.5:
         return {'kind': 'exact'}
-    if r < 0.55:
+    if r < 0.58:
         return {'kind': 'shift', 'rel': rng.choice([1e-3, 0.5, 1.0])}
     if r < 0.7:
         return {'kind': 'scale', 'eps': rng.choice([1e-3, 1e-4, 3e-5, 1e-6, 1e-7, -1e-4, -1e-6])}
@@ -153,7 +153,7 @@ class World(BaseWorld):
 
     def gen_write(self, rng, name=None):
         layout = rng.choice(['1col', '2col', '2col'])
-        fault = rng.choices(['clean', 'prefix', 'lost', 'empty', 'missing', 'dup', 'stale_tail'], [6, 4, 1, 0.5, 0.7, 0.7, 1])[0]
+        fault = rng.choices(['clean', 'prefix', 'lost', 'empty', 'missing', 'dup', 'stale_tail'], [9, 4, 1, 0.5, 0.7, 0.7, 1])[0]
         return {'op': 'write', 'name': name or rng.choice(NAMES), 'layout': layout, 'n': rng.choice(NSPEC),
                 'kgrid': gen_kgrid(rng) if layout == '2col' else {'kind': 'exact'}, 'fmt': rng.choice(FMTS),
                 'header': rng.random() < 0.2, 'crlf': rng.random() < 0.1, 'nl': rng.random() < 0.85,
@@ -166,37 +166,49 @@ class World(BaseWorld):
         w = {'write': rc.uniform(1, 4), 'delete': rc.uniform(0, 0.4), 'set_domain': rc.uniform(0.3, 1.5), 'edit_domain': rc.uniform(0, 1.0),
              'ff_calc': rc.uniform(1.5, 4), 'arm_eio': rc.uniform(0, 1.0), 'fa_new': rc.uniform(0.5, 2.5), 'fa_mutate': rc.uniform(0.3, 2),
              'fa_calc': rc.uniform(1, 3), 'build': rc.uniform(0.5, 2.5)}
-        names = sorted(w)
-        ops = [{'op': 'set_domain', 'domain': self.gen_domain(ro)}]
-        n = ro.randrange(2, 22)
-        for _ in range(n):
-            k = ro.choices(names, [w[x] for x in names])[0]
-            if k == 'write':
-                ops.append(self.gen_write(ro))
-            elif k == 'delete':
-                ops.append({'op': 'delete', 'name': ro.choice(NAMES)})
-            elif k == 'set_domain':
+        dom_kinds = ('set_domain', 'edit_domain')
+        names = sorted(x for x in w if x not in dom_kinds)
+        ops = []
+        # episodes: a Domain change, then a burst of file / array / build ops on that grid (so that writes, reads, caller
+        # mutations and builds actually meet on one grid), 1-4 episodes per run
+        for ep in range(ro.randrange(1, 5)):
+            if ep == 0 or ro.random() < w['set_domain'] / (w['set_domain'] + w['edit_domain'] + 1e-9):
                 ops.append({'op': 'set_domain', 'domain': self.gen_domain(ro)})
-            elif k == 'edit_domain':
+            else:
                 attr = ro.choice(['dr', 'dk', 'length'])
                 val = ro.choice(LENGTHS) if attr == 'length' else ro.choice([0.05, 0.1, 0.2, 0.25, 0.3])
                 ops.append({'op': 'edit_domain', 'attr': attr, 'value': val})
-            elif k == 'ff_calc':
-                ops.append({'op': 'ff_calc', 'name': ro.choice(NAMES), 'reuse': ro.random() < 0.6})
-            elif k == 'arm_eio':
-                ops.append({'op': 'arm_eio', 'name': ro.choice(NAMES), 'frac': ro.choice([0.0, 0.1, 0.5, 0.9, 0.99, 1.0, 2.0])})
-            elif k == 'fa_new':
-                ops.append({'op': 'fa_new', 'idx': ro.randrange(3), 'container': ro.choice(['list', 'ndarray', 'ndarray', 'tuple', 'view']),
-                            'n': ro.choice(NSPEC), 'with_k': ro.random() < 0.5, 'kgrid': gen_kgrid(ro),
-                            'kcontainer': ro.choice(['list', 'ndarray', 'ndarray'])})
-            elif k == 'fa_mutate':
-                ops.append({'op': 'fa_mutate', 'idx': ro.randrange(3), 'which': ro.choice(['omega', 'omega', 'k']),
-                            'how': ro.choice(['scale', 'zero', 'reverse', 'one'])})
-            elif k == 'fa_calc':
-                ops.append({'op': 'fa_calc', 'idx': ro.randrange(3)})
-            elif k == 'build':
-                ops.append({'op': 'build', 'rank': ro.choice([1, 1, 2]), 'src': ro.choice(['file', 'file', 'array']), 'name': ro.choice(NAMES),
-                            'idx': ro.randrange(3), 'where': ro.choice(['AA', 'all', 'AB']), 'reuse': ro.random() < 0.5})
+            last_file, last_fa = None, None      # targets of this episode: later ops mostly refer to what was just written / created
+
+            def pick_file():
+                return last_file if last_file is not None and ro.random() < 0.75 else ro.choice(NAMES)
+
+            def pick_fa():
+                return last_fa if last_fa is not None and ro.random() < 0.75 else ro.randrange(3)
+            for _ in range(ro.randrange(2, 8)):
+                k = ro.choices(names, [w[x] for x in names])[0]
+                if k == 'write':
+                    ops.append(self.gen_write(ro))
+                    last_file = ops[-1]['name']
+                elif k == 'delete':
+                    ops.append({'op': 'delete', 'name': ro.choice(NAMES)})
+                elif k == 'ff_calc':
+                    ops.append({'op': 'ff_calc', 'name': pick_file(), 'reuse': ro.random() < 0.6})
+                elif k == 'arm_eio':
+                    ops.append({'op': 'arm_eio', 'name': pick_file(), 'frac': ro.choice([0.0, 0.1, 0.5, 0.9, 0.99, 1.0, 2.0])})
+                elif k == 'fa_new':
+                    ops.append({'op': 'fa_new', 'idx': ro.randrange(3), 'container': ro.choice(['list', 'ndarray', 'ndarray', 'tuple', 'view']),
+                                'n': ro.choice(NSPEC), 'with_k': ro.random() < 0.5, 'kgrid': gen_kgrid(ro),
+                                'kcontainer': ro.choice(['list', 'ndarray', 'ndarray'])})
+                    last_fa = ops[-1]['idx']
+                elif k == 'fa_mutate':
+                    ops.append({'op': 'fa_mutate', 'idx': pick_fa(), 'which': ro.choice(['omega', 'omega', 'k']),
+                                'how': ro.choice(['scale', 'zero', 'reverse', 'one'])})
+                elif k == 'fa_calc':
+                    ops.append({'op': 'fa_calc', 'idx': pick_fa()})
+                elif k == 'build':
+                    ops.append({'op': 'build', 'rank': ro.choice([1, 1, 2]), 'src': ro.choice(['file', 'file', 'array']), 'name': pick_file(),
+                                'idx': pick_fa(), 'where': ro.choice(['AA', 'all', 'AB']), 'reuse': ro.random() < 0.5})
         faulty = any(o['op'] == 'arm_eio' or (o['op'] == 'write' and o['fault'] != 'clean') for o in ops)
         return {'config': {}, 'ops': ops, 'batch': 'fault_injecting' if faulty else 'fault_free'}
 
@@ -625,7 +637,7 @@ class World(BaseWorld):
                 'fa_view', 'fa_list', 'fa_ndarray', 'file_rejected', 'array_rejected']
 
     def rule(self):
-        return ('Each run = one seed -> 3-22 ops over {set/replace Domain (length 2..100, dr or dk), edit Domain in place, write file (1|2 columns; '
+        return ('Each run = one seed -> 1-4 episodes (a Domain change followed by 2-7 ops on that grid) over {set/replace Domain (length 2..100, dr or dk), edit Domain in place, write file (1|2 columns; '
                 'n in {N, N+-1, N-2, N/2, 2N, 0, 1, 2}; k column exact | shifted | rescaled | one point off by f x allclose tolerance | other domain '
                 '| r grid; 7 number formats; header, CRLF, no trailing newline, NaN/negative/huge values) under a durability fault {clean, torn '
                 'prefix (row boundary | mid row | mid number | inside last number | uniform), lost, empty, missing, duplicated, stale tail}, '
